@@ -230,7 +230,7 @@ TailToSubmodule ==
        IN IF M.includes = << >>
           THEN Step([ n \in DOMAIN ms \cup {"sx"} |->
                       IF n = Main THEN [M EXCEPT !.body = body1, !.includes = << "sx" >>]
-                      ELSE IF n = "sx" THEN [name |-> "sx", prefix |-> M.prefix, sub |-> TRUE, belongs |-> Main, gs |-> << >>, tds |-> << >>,
+                      ELSE IF n = "sx" THEN [name |-> "sx", prefix |-> M.prefix, sub |-> TRUE, belongs |-> Main, gs |-> << >>, tds |-> << >>, ids |-> << >>,
                                              body |-> << x >>, augs |-> << >>, includes |-> << >>, imports |-> M.imports]
                       ELSE ms[n] ])
           ELSE LET sn == M.includes[1] IN
@@ -243,12 +243,12 @@ GroupingToImport ==
           ref == [p |-> "", g |-> g.n]
           gs1 == SubSeq(M.gs, 1, gi - 1) \o SubSeq(M.gs, gi + 1, Len(M.gs))
       IN /\ ~HasUses(g.c) /\ g.gs = << >> /\ ~HasIff(g.c)
-         /\ g.tds = << >> /\ \A ty \in TypeRefs(g.c) : ty.n \in Builtins /\ ty.p = ""
+         /\ g.tds = << >> /\ \A ty \in TypeRefs(g.c) : ty.n \in Builtins /\ ty.p = "" /\ ty.base = NoBase
          /\ "ix" \notin DOMAIN ms
          /\ LET m1 == [M EXCEPT !.gs = gs1, !.imports = @ \o << [m |-> "ix", p |-> "ix"] >>]
                 base == [ n \in DOMAIN ms \cup {"ix"} |->
                            IF n = Main THEN m1
-                           ELSE IF n = "ix" THEN [name |-> "ix", prefix |-> "ix", sub |-> FALSE, belongs |-> "", gs |-> << g >>, tds |-> << >>,
+                           ELSE IF n = "ix" THEN [name |-> "ix", prefix |-> "ix", sub |-> FALSE, belongs |-> "", gs |-> << g >>, tds |-> << >>, ids |-> << >>,
                                                   body |-> << >>, augs |-> << >>, includes |-> << >>, imports |-> << >>]
                            ELSE IF ms[n].sub /\ ms[n].belongs = Main THEN [ms[n] EXCEPT !.imports = @ \o << [m |-> "ix", p |-> "ix"] >>]
                            ELSE ms[n] ]
@@ -292,7 +292,7 @@ ExtractTypedef ==
       LET s == StmtAt(M.body, ip)
           name == FreshName("t")
           td == [n |-> name, ty |-> s.ty, dflt |-> IF moveD THEN s.dflt ELSE "", units |-> IF moveU THEN s.units ELSE ""]
-          s1 == [s EXCEPT !.ty = [p |-> "", n |-> name, rng |-> "", en |-> << >>],
+          s1 == [s EXCEPT !.ty = [p |-> "", n |-> name, rng |-> "", en |-> << >>, base |-> NoBase],
                           !.dflt = IF moveD THEN "" ELSE s.dflt, !.units = IF moveU THEN "" ELSE s.units]
           parent == SubSeq(ip, 1, Len(ip) - 1)
       IN /\ s.k \in {"leaf", "leaflist"} /\ IsPlainPath(ip) /\ s.ty.p = "" /\ s.ty.n \in Builtins
@@ -311,7 +311,7 @@ ChainTypedef ==
       LET t == M.tds[i]
           name == FreshName("t")
           lower == [t EXCEPT !.n = name]
-          upper == [n |-> t.n, ty |-> [p |-> "", n |-> name, rng |-> "", en |-> << >>], dflt |-> "", units |-> ""]
+          upper == [n |-> t.n, ty |-> [p |-> "", n |-> name, rng |-> "", en |-> << >>, base |-> NoBase], dflt |-> "", units |-> ""]
       IN Step([ms EXCEPT ![Main] = [M EXCEPT !.tds = [@ EXCEPT ![i] = upper] \o << lower >>]])
 
 \* T3: what a leaf inherits from its typedef chain is stated on the leaf itself, or a stated value that
@@ -364,14 +364,14 @@ TypedefToImport ==
     \E i \in DOMAIN M.tds :
       LET t == M.tds[i]
           tds1 == SubSeq(M.tds, 1, i - 1) \o SubSeq(M.tds, i + 1, Len(M.tds))
-      IN /\ t.ty.p = "" /\ t.ty.n \in Builtins
+      IN /\ t.ty.p = "" /\ t.ty.n \in Builtins /\ t.ty.base = NoBase
          /\ "ix" \notin DOMAIN ms
          \* no local typedef of the same name anywhere (the unprefixed name keeps meaning the local one)
          /\ \A n \in Family : ~ShadowedIn(ms[n].body, t.n) /\ \A j \in DOMAIN ms[n].gs : IndexOfName(ms[n].gs[j].tds, t.n) = 0 /\ ~ShadowedIn(ms[n].gs[j].c, t.n)
          /\ LET m1 == [M EXCEPT !.tds = tds1, !.imports = @ \o << [m |-> "ix", p |-> "ix"] >>]
                 base == [ n \in DOMAIN ms \cup {"ix"} |->
                            IF n = Main THEN m1
-                           ELSE IF n = "ix" THEN [name |-> "ix", prefix |-> "ix", sub |-> FALSE, belongs |-> "", gs |-> << >>, tds |-> << t >>,
+                           ELSE IF n = "ix" THEN [name |-> "ix", prefix |-> "ix", sub |-> FALSE, belongs |-> "", gs |-> << >>, tds |-> << t >>, ids |-> << >>,
                                                   body |-> << >>, augs |-> << >>, includes |-> << >>, imports |-> << >>]
                            ELSE IF ms[n].sub /\ ms[n].belongs = Main THEN [ms[n] EXCEPT !.imports = @ \o << [m |-> "ix", p |-> "ix"] >>]
                            ELSE ms[n] ]
